@@ -138,6 +138,7 @@ class Scen:
         self.returned = [[] for _ in self.programs]    # message indices whose send returned
         self.cancelled = [False] * len(self.programs)
         self.errors = []
+        self.refused = []
         self.jobno = {}
         self.keep = []     # keeps job tuples alive so that id() stays unique
         # late starters begin sending when the environment says so (e.g. after another sender was cancelled)
@@ -159,6 +160,11 @@ class Scen:
                 self.cancelled[i] = True
                 raise
             except Exception as e:  # noqa: BLE001
+                if type(e).__name__ == "ClientConnectionResetError" and self.writer._closing:
+                    # a send that meets the close frame is refused (no data frame may follow it): like a send that
+                    # never returned; the task stops here
+                    self.refused.append((i, j))
+                    return
                 self.errors.append((i, j, type(e).__name__, str(e)[:80]))
                 return
             self.returned[i].append(j)
@@ -255,7 +261,7 @@ class Scen:
             missing = [j for j in self.returned[i] if j not in mine]
             if missing:
                 self.P("lost-message", f"send_frame returned for task {i} messages {self.returned[i]} but {missing} never arrive; config {cfg} programs {self.programs}")
-            if not self.cancelled[i] and not self.errors and len(self.returned[i]) != len(self.programs[i]) and self.tasks[i].done():
+            if not self.cancelled[i] and not self.errors and not any(t == i for t, _j in self.refused) and len(self.returned[i]) != len(self.programs[i]) and self.tasks[i].done():
                 self.P("send-incomplete", f"task {i} ended after {self.returned[i]} of {len(self.programs[i])} sends")
         if len(self.programs) == 1 and not self.cancelled[0] and seen != [(0, j) for j in range(len(self.programs[0]))] and not self.errors:
             self.P("sequence-differs", f"sent {len(self.programs[0])} messages, received {seen}; config {cfg} programs {self.programs}")
